@@ -7,13 +7,12 @@
    (syntax.rs), Model/Wire.v (parse_all).  [Panic] and [NoFuel] are explicit
    outcomes of the model ([out] in Model/Base.v).
 
-   On the pinned tree the reader is NOT total in a debug build: a token directly
+   On the pinned tree the reader was NOT total in a debug build: a token directly
    after a number prefix (#d #x #e ...) is handed to Number::parse_with_exactness
-   whatever its type, and Ratio<i32>::from_str_radix + reduce overflows on a signed
-   denominator when the reduced numerator or denominator is i32::MIN
-   ("#d1/-2147483648").  [known_C06] is that class (decidable), C06_parse_text_total
-   is proved over its complement, C06_parse_text_refuted_ratio_reader is the witness,
-   and C06_parse_text_full_if_rational_ok says that the class is the ONLY obstacle. *)
+   whatever its type, and Ratio<i32>::from_str_radix + reduce overflowed on a signed
+   denominator ("#d1/-2147483648", found while proving this file).  Repaired by
+   fix e424813 (signed denominators are not numbers); the model follows the fix and
+   the reader is now proved total on every text. *)
 From MW Require Import Model.Base Model.F64 Model.Num Model.NumFmt Model.Datum Model.Lex Model.Parse
   Model.Highlight Model.Wire
   Proofs.LexProofs Proofs.ParseProofs Proofs.ParseTotal Proofs.ParseAllTotal Proofs.HighlightProofs.
@@ -24,59 +23,39 @@ Theorem C06_scan_total : forall t, (exists ts, scan t = Ok ts) \/ (exists e, sca
 Proof. exact scan_total. Qed.
 Print Assumptions C06_scan_total.
 
-(* the full statement for the reader.  REFUTED on the pinned tree (debug build) by
-   C06_parse_text_refuted_ratio_reader; it follows from C06_parse_text_full_if_rational_ok
-   once parse_rational is repaired. *)
-Definition C06_parse_text_full : Prop :=
-  forall t, (exists d r, parse_text t = Ok (d, r)) \/ (exists e, parse_text t = Err e).
-
-(* the reader over the complement of the known class: a datum (and the remaining
-   text) or an error value; in particular none of the panic sites 1-5 of
-   Model/Parse.v and Model/Lex.v, no panic of the number parser, enough fuel *)
-Theorem C06_parse_text_total : forall t, known_C06 t = false ->
+(* the reader on EVERY text: a datum (and the remaining text) or an error value; in
+   particular none of the panic sites 1-5 of Model/Parse.v and Model/Lex.v, no panic
+   of the number parser (Ratio<i32> arithmetic included), enough fuel *)
+Theorem C06_parse_text_total : forall t,
   (exists d r, parse_text t = Ok (d, r)) \/ (exists e, parse_text t = Err e).
-Proof. exact parse_text_total. Qed.
+Proof. exact parse_text_total_full. Qed.
 Print Assumptions C06_parse_text_total.
 
-Theorem C06_parse_text_refuted_ratio_reader :
-  exists t, known_C06 t = true /\ parse_text t = Panic P_I32_OVERFLOW.
-Proof. exact parse_text_refuted. Qed.
-Print Assumptions C06_parse_text_refuted_ratio_reader.
-
-(* the class is the only obstacle: if Number::parse_rational never panics, the
-   full statement holds *)
-Theorem C06_parse_text_full_if_rational_ok :
-  (forall sp r, In r [2; 8; 10; 16]%Z -> forall s, parse_rational Debug sp r <> Panic s) ->
-  C06_parse_text_full.
-Proof. exact parse_text_total_of_rational_ok. Qed.
-Print Assumptions C06_parse_text_full_if_rational_ok.
-
 (* Number::parse_with_exactness (debug build) on ANY text, for a valid radix: a
-   number or "not a number", under the same side condition on that text *)
+   number or "not a number" *)
 Theorem C06_parse_with_exactness_total : forall sp ex r, (2 <= r <= 36)%Z ->
-  (forall s, parse_rational Debug sp r <> Panic s) ->
   exists o, parse_with_exactness sp ex r = Ok o.
-Proof. exact parse_with_exactness_safe. Qed.
+Proof. intros sp ex r Hr. apply parse_with_exactness_safe; [exact Hr|]. apply rational_ok_all. lia. Qed.
 Print Assumptions C06_parse_with_exactness_total.
 
 (* the parser proper on scanner output never runs out of the fuel it is given *)
-Theorem C06_parse_fuel_enough : forall t ts, scan t = Ok ts -> known_C06 t = false ->
+Theorem C06_parse_fuel_enough : forall t ts, scan t = Ok ts ->
   safe (parse (parse_fuel ts) t ts).
-Proof. exact parse_fuel_enough. Qed.
+Proof. intros t ts Hs. apply parse_fuel_enough; [exact Hs|apply known_C06_never]. Qed.
 Print Assumptions C06_parse_fuel_enough.
 
-(* the remaining text is again outside the class and strictly shorter *)
-Theorem C06_parse_text_rest : forall t d s, known_C06 t = false -> parse_text t = Ok (d, Some s) ->
-  known_C06 s = false /\ (length s < length t)%nat.
-Proof. exact parse_text_rest. Qed.
+(* the remaining text is strictly shorter: the datum-by-datum loop terminates *)
+Theorem C06_parse_text_rest : forall t d s, parse_text t = Ok (d, Some s) ->
+  (length s < length t)%nat.
+Proof. intros t d s H. exact (proj2 (parse_text_rest t d s (known_C06_never t) H)). Qed.
 Print Assumptions C06_parse_text_rest.
 
 (* the datum-by-datum loop (interface 5): a sequence of data, then END or an error;
    never PANIC, never NOFUEL *)
-Theorem C06_parse_all_total : forall t, known_C06 t = false ->
+Theorem C06_parse_all_total : forall t,
   exists ds e, reads t ds e /\
     forall acc, parse_all (S (length t)) t acc = acc ++ flat_map show_datum ds ++ show_end e.
-Proof. exact parse_all_total. Qed.
+Proof. intros t. exact (parse_all_total t (known_C06_never t)). Qed.
 Print Assumptions C06_parse_all_total.
 
 (* the bracket highlighter *)
@@ -90,13 +69,12 @@ Example C06_example :
   (* (a #xFF "s\x41;" #\x41 #e1.5 #(1) . b) c *)
   let t := [40;97;32;35;120;70;70;32;34;115;92;120;52;49;59;34;32;35;92;120;52;49;32;
             35;101;49;46;53;32;35;40;49;41;32;46;32;98;41;32;99] in
-  known_C06 t = false /\
   (exists d, parse_text t = Ok (d, Some [99])) /\
   parse_text [34;97] = Err E_INCOMPLETE /\
-  parse_text [35;100;49;47;45;50] = Ok (CNum (Rational (-1) 2), None) /\
+  parse_text [35;100;49;47;45;50] = Ok (CSym [49;47;45;50], None) /\
   (exists r, highlight [40;97;41] 3 = Ok r).
 Proof.
-  cbv zeta. split; [vm_compute; reflexivity|]. split; [eexists; vm_compute; reflexivity|].
+  cbv zeta. split; [eexists; vm_compute; reflexivity|].
   split; [vm_compute; reflexivity|]. split; [vm_compute; reflexivity|].
   eexists; vm_compute; reflexivity.
 Qed.
